@@ -66,7 +66,8 @@ Definition positional_dict (phs : list ph) : pv :=
   PTuple [PStr dict_tag; PList (pos_items 0 (isort Params.by_pos phs))].
 
 Definition params_lib : strlib :=
-  {| sl_strip := fun s => s; sl_lower := fun s => s; sl_parseline := fun _ => None; sl_getattr := fun _ => None |}.
+  {| sl_strip := fun s => s; sl_lower := fun s => s; sl_parseline := fun _ => None; sl_getattr := fun _ => None;
+     sl_ext := no_ext |}.
 
 (* ---------------------------------------------------------------- the comprehensions of Compiler.compile *)
 Definition lc_placeholders : expr :=
